@@ -174,6 +174,9 @@ func vfC12Run(run *vfkit.Run, st *vfC12Stream, cs *vfC12Case) {
 		return
 	}
 	obs.catchAll(c.router)
+	if st.SM && cs.K%3 == 0 {
+		obs.handlerDelay = func(id string) { time.Sleep(2 * time.Millisecond) } // handlers still at work when the cut comes
+	}
 	wantReports := 1
 	errorsBeforeCut := 0 // error callbacks seen when the session under test came up (a failed attempt may add one of its own)
 	if cs.ViaResume {
@@ -279,6 +282,21 @@ func vfC12Run(run *vfkit.Run, st *vfC12Stream, cs *vfC12Case) {
 	for i, end := range st.Ends {
 		if end <= cs.K {
 			want = append(want, st.Ids[i])
+		}
+	}
+	// "... one Disconnected event carrying the stream-management state": on a stream-managed session that state says
+	// how many stanzas were received - the server will be told exactly this number when the session is resumed
+	if st.SM && cs.How == "fin" && !cs.ViaResume {
+		evs := obs.Events()
+		for i := len(evs) - 1; i >= 0; i-- {
+			if evs[i].State == StateDisconnected {
+				if int(evs[i].Inbound) != len(want) {
+					run.Violation("C12/disconnected-event-with-wrong-inbound-count:"+tag, fmt.Sprintf("cut at byte %d (FIN): %d stanzas were completely received before the cut, the Disconnected event's stream-management state says %d", cs.K, len(want), evs[i].Inbound), map[string]interface{}{"case": cs, "prefix": st.Bytes[:cs.K]})
+					return
+				}
+				run.Count("disconnected_events_with_exact_inbound_count", 1)
+				break
+			}
 		}
 	}
 	got := map[string]int{}
